@@ -199,7 +199,7 @@ theorem C01_routes :
 /-- `Proxy`'s error switch: exactly the five restart-the-flow errors, 403, 401, and 500 for everything else; the
 middleware order of `Handler` (https upgrade inside header overrides inside security headers). -/
 theorem C01_skeleton_Proxy : Sso.Generated.skel_proxy_Proxy =
-    ["call:NewLogEntry", "call:Now", "call:IsWhitelistedRequest", "if{", "call:append", "}", "else{", "call:append", "call:Authenticate", "}",
+    ["call:NewLogEntry", "call:Now", "range{", "call:Del", "}", "call:IsWhitelistedRequest", "if{", "call:append", "}", "else{", "call:append", "call:Authenticate", "}",
      "if{", "switch{", "case http.ErrNoCookie{", "call:OAuthStart", "return", "}", "case ErrLifetimeExpired{", "call:OAuthStart", "return", "}",
      "case ErrWrongIdentityProvider{", "call:OAuthStart", "return", "}", "case ErrUnauthorizedUpstreamRequested{", "call:OAuthStart", "return", "}",
      "case sessions.ErrInvalidSession{", "call:OAuthStart", "return", "}", "case ErrUserNotAuthorized{", "call:append", "call:Incr", "call:ErrorPage", "return", "}",
